@@ -18,7 +18,7 @@ RULE = ("differential monitor: h1 / h2 / h called with list, tuple, iterator, mu
         "names unless given); NaN entries / rows are dropped with their weights; non-numeric, null-containing and wrongly shaped inputs "
         "must be refused; conversions: xarray round trip, to_series / to_dataframe, binning_to_index / index_to_binning (also gapped), "
         "Geant4 CSV files generated from known 1D / 2D (nx != ny, with under/overflow rows) histograms, with the moment-consistency oracle; "
-        "non-trivial = data with >= 1 NaN and weights, or >= 2 dask chunks, or a gapped / asymmetric conversion; distinct by hash of (container, data, args)")
+        "non-trivial = data with >= 1 NaN and weights, or >= 2 dask chunks, or a gapped / asymmetric conversion; distinct by hash of (container, data, args) The pandas DataFrame accessor is also entered with a one-column selection, the dask facades with data-derived ('pretty') bins, and the Geant4 1D reader's statistics are compared with the file's moments.")
 ASSUMPTIONS = ["row order of the Geant4 2D format (x index fastest) was established from the shipped sample's own per-bin moments",
                "dask chunk histograms are adaptive by construction: compared per bin interval with the adaptive histogram of the whole array"]
 
